@@ -18,6 +18,7 @@ import (
 	"verifharness/lib/c16"
 	"verifharness/lib/c18"
 	"verifharness/sl/c01"
+	"verifharness/sl/c03"
 	"verifharness/sl/c04"
 	"verifharness/sl/c05"
 	"verifharness/sl/c09"
@@ -25,6 +26,7 @@ import (
 
 var cmds = map[string]func([]string) int{
 	"C01": c01.Main,
+	"C03": c03.Main,
 	"C04": c04.Main,
 	"C05": c05.Main,
 	"C06": c06.Main,
